@@ -190,7 +190,11 @@ type Node interface{}
 type Text struct{ S string }
 type Print struct {
 	E    Expr
-	Pipe string // optional pipeline suffix, e.g. " | raw" (the model treats the output as given by E)
+	Pipe string // optional pipeline suffix (the model treats the output as given by E)
+	// Writer names a SafeWriter applied as last command ("" = none: the Set's escaper applies);
+	// Form: 0 "v | w", 1 "w: v", 2 "w(v)".
+	Writer string
+	Form   int
 	pos
 }
 type Let struct { // a, b := e1, e2   ("_" discards)
@@ -380,7 +384,16 @@ func (p *printer) node(n Node) {
 	case *Comment:
 		p.w("{*" + n.S + "*}")
 	case *Print:
-		p.act(n, " "+n.E.src()+n.Pipe+" ")
+		switch {
+		case n.Writer == "":
+			p.act(n, " "+n.E.src()+n.Pipe+" ")
+		case n.Form == 1:
+			p.act(n, " "+n.Writer+": "+n.E.src()+" ")
+		case n.Form == 2:
+			p.act(n, " "+n.Writer+"("+n.E.src()+") ")
+		default:
+			p.act(n, " "+n.E.src()+" | "+n.Writer+" ")
+		}
 	case *Let:
 		p.act(n, " "+strings.Join(n.Names, ", ")+" := "+exprList(n.Es)+" ")
 	case *Set:
